@@ -48,7 +48,7 @@ MkRule(i, shell, ts) ==
      paths |-> [j \in 1..Len(ts) |->
                    [ts[j] EXCEPT !.backend = IF ts[j].backend = "MISSING" THEN XName[i][j] ELSE BName[i][j]]]]
 MkCfg(sipf, shells, tss) ==
-    [ipf |-> sipf, mapper |-> Mapper, rules |-> [i \in 1..Len(shells) |-> MkRule(i, shells[i], tss[i])]]
+    [ipf |-> sipf, mapper |-> [b \in Mapper |-> b], rules |-> [i \in 1..Len(shells) |-> MkRule(i, shells[i], tss[i])]]
 
 Seqs(S, len) == UNION {[1..k -> S] : k \in 0..len}          \* sequences over S of length <= n
 
@@ -76,9 +76,23 @@ tRwAll     == E(None, None, R(FALSE, pA, FALSE, FALSE), None, None, FALSE, pC)  
 tHdrValRe  == E(pA, None, NoRE, <<GET>>, <<H("X-A", <<v1, v2>>, R(TRUE, v2, FALSE, FALSE))>>, TRUE, None)  \* value and regexp
 tHdrValOrRe == E(None, pA, NoRE, None, <<H("X-A", <<v1>>, R(TRUE, v2, FALSE, FALSE))>>, FALSE, None)       \* value or regexp
 tRwPct     == E(pA, None, NoRE, None, None, FALSE, pXPct)                                 \* exact, rewrite to /x%25
+(* header conditions that the empty string satisfies.  A header the request does not carry has    *)
+(* the value "" (HdrVal), like one it carries without a value: "X-A must be absent or empty"        *)
+(* (^$), "X-A is optional, but if present it is 1" (values "", "1"), "any X-B" (dot-star) are        *)
+(* conditions a request without the header meets.  (An empty literal is fine in a header regexp:    *)
+(* REOK is about ReplaceAll; the one member the harness cannot write down, on with nothing in it,   *)
+(* is not used.)                                                                                    *)
+reEmpty    == R(TRUE, None, FALSE, TRUE)                                                  \* ^$
+reAnyVal   == R(TRUE, None, TRUE, TRUE)                                                   \* ^ G $
+tHdrNoA    == E(pA, None, NoRE, None, <<H("X-A", None, reEmpty)>>, FALSE, None)                    \* /a unless X-A has a value
+tHdrOptA   == E(None, pA, NoRE, None, <<H("X-A", <<None, v1>>, NoRE)>>, TRUE, None)                \* X-A empty or 1 (all)
+tHdrNoAorB == E(pA, None, NoRE, None, <<H("X-A", <<None>>, NoRE), hdrB1>>, FALSE, None)            \* X-A empty, or X-B=1
+tHdrAllOpt == E(None, pA, NoRE, None, <<hdrA1, H("X-B", None, reAnyVal)>>, TRUE, None)             \* X-A=1 and any X-B
+tHdrNoAB   == E(pA, None, NoRE, None, <<H("X-A", <<None>>, NoRE), H("X-B", None, reEmpty)>>, TRUE, None)  \* neither header
 C01Templates == {tExactA, tPrefixA, tPrefixRt, tReTail, tReFree, tExactGet, tPrefixPost, tHdrA, tHdrAny, tHdrAll,
-                 tRwExact, tRwPrefix, tRwRe, tThree, tHdrRe, tAny, tMissing, tRwAll, tHdrValRe, tHdrValOrRe, tRwPct}
-C01Core == {tExactA, tPrefixRt, tExactGet, tPrefixPost, tHdrA, tHdrAll, tRwRe, tMissing}
+                 tRwExact, tRwPrefix, tRwRe, tThree, tHdrRe, tAny, tMissing, tRwAll, tHdrValRe, tHdrValOrRe, tRwPct,
+                 tHdrNoA, tHdrOptA, tHdrNoAorB, tHdrAllOpt, tHdrNoAB}
+C01Core == {tExactA, tPrefixRt, tExactGet, tPrefixPost, tHdrA, tHdrAll, tRwRe, tMissing, tHdrNoA, tHdrOptA}
 Shell(h, re) == [host |-> h, hostRE |-> re, ipf |-> NoFilter]
 C01ServerFilters == {NoFilter}
 C01Shells =={Shell(None, NoRE), Shell(hH, NoRE), Shell(None, R(TRUE, hH, FALSE, FALSE))}
@@ -203,6 +217,44 @@ C12InitRw(c) == \E s \in {FShell(None, NoFilter), FShell(hH, Block9)}, k \in 0..
 C12ShareShells == {FShell(hH, Block9), FShell(None, NoFilter)}
 C12ShareFocus == {uPlainA, uPrefixGet}
 C12ShareReqs == {[host |-> h, m |-> GET, path |-> pA, hdr |-> Hdr2(None, None), ip |-> ip] : h \in {hH, hG}, ip \in {ip1, ip9}}
+(* tenant focus: rules for different hosts, each with its own rule-level filter (and entries with  *)
+(* or without one of their own), a few requests per host: within a short behaviour a result is     *)
+(* stored for one host, then one for the other (found past other filters), then the first is asked  *)
+(* for again by a client on whom the two rules' filters disagree.  What is kept with one stored     *)
+(* result must not change when another result is stored.                                            *)
+C12TenantShells == {FShell(hH, Block9), FShell(hH, Block5), FShell(hHG, Block9), FShell(hHG, Block5), FShell(hHG, Allow1),
+                    FShell(None, NoFilter)}
+C12TenantFocus == {uPlainA, uPrefixGet, uABlock5, uBBlock9}
+C12TenantReqs == {[host |-> h, m |-> GET, path |-> p, hdr |-> Hdr2(None, None), ip |-> ip] :
+                     h \in {hH, hHG}, p \in {pA, pB}, ip \in {ip1, ip5, ip9}}
+(* header-key focus: entries conditioned on two different headers (one of them, any of them, all of *)
+(* them, a header that must be absent), a plain entry behind them, and requests for ONE URL from    *)
+(* ONE client that differ in the header values only - among them values with a separator character  *)
+(* in them, so that pairs occur whose values read the same once folded into one string ("1," + ""   *)
+(* and "1" + ","; HttpRouter_Gen!HdrCollide).  Whatever a server remembers about a request, it must *)
+(* not take one of these for the other.                                                             *)
+v1c   == <<"1", ",">>
+vC    == <<",">>
+vC1   == <<",", "1">>
+v1s   == <<"1", ";">>
+vS    == <<";">>
+uHdrB     == E(pA, None, NoRE, None, <<hdrB1>>, FALSE, None)                     \* /a if X-B=1
+uHdrAnyAB == E(pA, None, NoRE, None, <<hdrA1, hdrB1>>, FALSE, None)              \* /a if X-A=1 or X-B=1
+uHdrAllAB == E(pA, None, NoRE, None, <<hdrA1, hdrB1>>, TRUE, pX)                 \* /a if X-A=1 and X-B=1, rewritten
+uHdrNoA   == E(pA, None, NoRE, None, <<H("X-A", None, reEmpty)>>, FALSE, pY)     \* /a unless X-A has a value, rewritten
+uHdrAPfx  == E(pA, None, NoRE, None, <<H("X-A", None, R(TRUE, v1, FALSE, FALSE))>>, FALSE, None)   \* /a if X-A ~ ^1
+C12HdrKeyFocus == {uHdrA, uHdrB, uHdrAnyAB, uHdrAllAB, uHdrNoA, uHdrAPfx, uPlainA}
+C12HdrKeyShells == {FShell(None, NoFilter), FShell(hH, NoFilter)}
+C12HdrKeyReqs == {[host |-> hH, m |-> GET, path |-> pA, hdr |-> Hdr2(a, b), ip |-> ip1] :
+                     a \in {None, v1, v1c, v1s, vC}, b \in {None, v1, vC, vS, vC1}}
+(* mapper focus: few URLs, so that a URL is asked for again after the table behind the mapper has  *)
+(* changed (HttpRouter!Unmap / Map / Remap): entries with and without conditions, one whose backend *)
+(* does not exist at the start, one with a rewrite                                                  *)
+uMissingB == [E(pB, None, NoRE, None, None, FALSE, None) EXCEPT !.backend = "MISSING"]   \* /b, backend not there (yet)
+C12MapFocus == {uPlainA, uHdrA, uPrefixGet, uMissingB, uRwExactAX, uBBlock9}
+C12MapShells == {FShell(None, NoFilter), FShell(hH, NoFilter), FShell(hH, Block9)}
+C12MapReqs == {[host |-> hH, m |-> m, path |-> p, hdr |-> Hdr2(a, None), ip |-> ip] :
+                  m \in {GET, POST}, p \in {pA, pB}, a \in {None, v1}, ip \in {ip1, ip9}}
 (* few requests (one host, one method, two paths, three clients) over sibling entries / rules   *)
 (* with different filters: every (client, path) pair repeats within a short behaviour           *)
 C05FocusReqs == {[host |-> hH, m |-> GET, path |-> p, hdr |-> Hdr2(None, None), ip |-> ip] : p \in {pA, pB}, ip \in {ip1, ip5, ip9}}
